@@ -313,6 +313,16 @@ def roundtrip(c, name, yaml_path, cmdline, base, variant, how, rng):
     y = load_yaml(yaml_path)
     y.pop("splicer", None)
     y.pop("splicer_code", None)
+
+    # a declaration's own `splicer:` entry is input too and, by design, takes the place of anything supplied for
+    # that block from outside (checked separately by decl_precedence_traces): removed here, so that every block
+    # the experiment supplies is one a user can supply
+    def strip(nodes):
+        for n in nodes or []:
+            if isinstance(n, dict):
+                n.pop("splicer", None)
+                strip(n.get("declarations"))
+    strip(y.get("declarations"))
     supplied = []
     files = {}
     code = {}
